@@ -50,7 +50,7 @@ def report(pid, tier, seed, spec, vcs, results, wall):
         "property_id": pid, "tier": tier, "seed": seed, "level": "model_checking",
         "coverage": {
             "states": max(paths, 0), "transitions": q["unsat"] + q["sat"] + q["unknown"] + q["trivial"],
-            "traces_validated_against_impl": sum(1 for v in violations + inconcl if v.get("native")) + _diff_count(pid),
+            "traces_validated_against_impl": sum(r.get("validated", 0) for r in ok) + sum(1 for v in violations if v.get("native")),
             "samples": samples,
             "explanation": "states = symbolic execution paths of the real MIR explored to completion (each is a set of concrete runs "
                            "characterised by its path condition); transitions = obligations discharged by the solver on those paths "
@@ -96,6 +96,9 @@ def report(pid, tier, seed, spec, vcs, results, wall):
         for vc, u in unsupported: probs.append(f"{vc}: unsupported: {u}")
         for i in inconcl: probs.append(f"{i.get('vc')}: counterexample for {i.get('obligation')} did not reproduce natively: {i.get('why')} {i.get('diffs', '')} [{i.get('replay_file', '')}]")
         for t in truncated: probs.append(f"{t}: exploration truncated (budget)")
+        for r in ok:
+            for vf in r.get("validation_failures", []):
+                probs.append(f"{vf['vc']}: encoder validation failed: native run differs from the interpreter on a sampled path: {vf.get('diffs')}")
         for v in vacuous: probs.append(v)
         if q["unknown"]: probs.append(f"{q['unknown']} solver queries returned unknown")
         if probs:
